@@ -387,6 +387,22 @@ impl Machine {
     }
   }
 
+  /// Address of the ReplaceSource a `clone` step is about to clone (what the
+  /// crate's schedule points report as their object), 0 for anything else.
+  pub fn clone_target(&self, step: &Value) -> usize {
+    if step["op"].as_str() != Some("clone") {
+      return 0;
+    }
+    let r = step["src"].as_u64().unwrap_or(0) as usize;
+    let v = self.regs.get(r).and_then(|v| v.as_ref()).or_else(|| {
+      self.shared.as_ref().and_then(|s| s.get(r)).and_then(|v| v.as_ref())
+    });
+    match v {
+      Some(Val::Replace(src)) => src as *const _ as *const u8 as usize,
+      _ => 0,
+    }
+  }
+
   fn reg(&self, step: &Value, key: &str) -> &Val {
     let r = step[key].as_u64().expect("register index") as usize;
     if let Some(v) = self.regs[r].as_ref() {
